@@ -144,8 +144,8 @@ CHECKS = {
         'up to length 5-6 over the instance alphabet, and for Hypothesis-generated larger models with random walks of '
         'the automaton and their one-edit mutants, is_valid() must equal membership in the unrolled Glushkov automaton '
         '(both directions) and a rejected sequence must carry an error at the parent; XSD 1.0 and 1.1; element, '
-        'substitution-head, wildcard, group-reference, all-group and open-content leaves. Three known-finding classes '
-        '(weak-only determinism, 1.1 wildcard precedence, nested-choice over-acceptance) are excluded by construction and '
+        'substitution-head, wildcard, group-reference, all-group and open-content leaves, plus a scope of models with prohibited (maxOccurs=0) particles. Four known-finding classes '
+        '(weak-only determinism, 1.1 wildcard precedence, nested-choice over-acceptance, a prohibited branch of a choice) are excluded by construction and '
         'counted; regressions confined to them are invisible.',
         'trusted: vf/oracles/cm.py (self-tested against Python re on every run); leaves are empty xs:string elements / lax wildcards',
         'DESIGN.md section 3 C01'),
